@@ -122,6 +122,7 @@ Record bstate := {
   b_stack : list (option Z);
   b_ctx : nat;
   b_bcs : list nat;                     (* _buffered_collections, insertion order *)
+  b_forced : nat;                       (* ghost: number of capacity-forced flushes so far *)
 }.
 
 Inductive exn := XMeta (f : nat) | XBuf (fs : list nat).
@@ -144,15 +145,15 @@ Section WithParams.
   Definition empty_of (k : kind) : val := match k with KList => VL [] | _ => VD [] end.
 
   (* record updates *)
-  Definition upd_files s x := {| b_files := x; b_clock := b_clock s; b_writes := b_writes s; b_heap := b_heap s; b_nloc := b_nloc s; b_objs := b_objs s; b_buffer := b_buffer s; b_size := b_size s; b_cap := b_cap s; b_stack := b_stack s; b_ctx := b_ctx s; b_bcs := b_bcs s |}.
-  Definition upd_heap s x := {| b_files := b_files s; b_clock := b_clock s; b_writes := b_writes s; b_heap := x; b_nloc := b_nloc s; b_objs := b_objs s; b_buffer := b_buffer s; b_size := b_size s; b_cap := b_cap s; b_stack := b_stack s; b_ctx := b_ctx s; b_bcs := b_bcs s |}.
-  Definition upd_objs s x := {| b_files := b_files s; b_clock := b_clock s; b_writes := b_writes s; b_heap := b_heap s; b_nloc := b_nloc s; b_objs := x; b_buffer := b_buffer s; b_size := b_size s; b_cap := b_cap s; b_stack := b_stack s; b_ctx := b_ctx s; b_bcs := b_bcs s |}.
-  Definition upd_buffer s x := {| b_files := b_files s; b_clock := b_clock s; b_writes := b_writes s; b_heap := b_heap s; b_nloc := b_nloc s; b_objs := b_objs s; b_buffer := x; b_size := b_size s; b_cap := b_cap s; b_stack := b_stack s; b_ctx := b_ctx s; b_bcs := b_bcs s |}.
-  Definition upd_size s x := {| b_files := b_files s; b_clock := b_clock s; b_writes := b_writes s; b_heap := b_heap s; b_nloc := b_nloc s; b_objs := b_objs s; b_buffer := b_buffer s; b_size := x; b_cap := b_cap s; b_stack := b_stack s; b_ctx := b_ctx s; b_bcs := b_bcs s |}.
-  Definition upd_cap s x := {| b_files := b_files s; b_clock := b_clock s; b_writes := b_writes s; b_heap := b_heap s; b_nloc := b_nloc s; b_objs := b_objs s; b_buffer := b_buffer s; b_size := b_size s; b_cap := x; b_stack := b_stack s; b_ctx := b_ctx s; b_bcs := b_bcs s |}.
-  Definition upd_stack s x := {| b_files := b_files s; b_clock := b_clock s; b_writes := b_writes s; b_heap := b_heap s; b_nloc := b_nloc s; b_objs := b_objs s; b_buffer := b_buffer s; b_size := b_size s; b_cap := b_cap s; b_stack := x; b_ctx := b_ctx s; b_bcs := b_bcs s |}.
-  Definition upd_ctx s x := {| b_files := b_files s; b_clock := b_clock s; b_writes := b_writes s; b_heap := b_heap s; b_nloc := b_nloc s; b_objs := b_objs s; b_buffer := b_buffer s; b_size := b_size s; b_cap := b_cap s; b_stack := b_stack s; b_ctx := x; b_bcs := b_bcs s |}.
-  Definition upd_bcs s x := {| b_files := b_files s; b_clock := b_clock s; b_writes := b_writes s; b_heap := b_heap s; b_nloc := b_nloc s; b_objs := b_objs s; b_buffer := b_buffer s; b_size := b_size s; b_cap := b_cap s; b_stack := b_stack s; b_ctx := b_ctx s; b_bcs := x |}.
+  Definition upd_files s x := {| b_files := x; b_clock := b_clock s; b_writes := b_writes s; b_heap := b_heap s; b_nloc := b_nloc s; b_objs := b_objs s; b_buffer := b_buffer s; b_size := b_size s; b_cap := b_cap s; b_stack := b_stack s; b_ctx := b_ctx s; b_bcs := b_bcs s; b_forced := b_forced s |}.
+  Definition upd_heap s x := {| b_files := b_files s; b_clock := b_clock s; b_writes := b_writes s; b_heap := x; b_nloc := b_nloc s; b_objs := b_objs s; b_buffer := b_buffer s; b_size := b_size s; b_cap := b_cap s; b_stack := b_stack s; b_ctx := b_ctx s; b_bcs := b_bcs s; b_forced := b_forced s |}.
+  Definition upd_objs s x := {| b_files := b_files s; b_clock := b_clock s; b_writes := b_writes s; b_heap := b_heap s; b_nloc := b_nloc s; b_objs := x; b_buffer := b_buffer s; b_size := b_size s; b_cap := b_cap s; b_stack := b_stack s; b_ctx := b_ctx s; b_bcs := b_bcs s; b_forced := b_forced s |}.
+  Definition upd_buffer s x := {| b_files := b_files s; b_clock := b_clock s; b_writes := b_writes s; b_heap := b_heap s; b_nloc := b_nloc s; b_objs := b_objs s; b_buffer := x; b_size := b_size s; b_cap := b_cap s; b_stack := b_stack s; b_ctx := b_ctx s; b_bcs := b_bcs s; b_forced := b_forced s |}.
+  Definition upd_size s x := {| b_files := b_files s; b_clock := b_clock s; b_writes := b_writes s; b_heap := b_heap s; b_nloc := b_nloc s; b_objs := b_objs s; b_buffer := b_buffer s; b_size := x; b_cap := b_cap s; b_stack := b_stack s; b_ctx := b_ctx s; b_bcs := b_bcs s; b_forced := b_forced s |}.
+  Definition upd_cap s x := {| b_files := b_files s; b_clock := b_clock s; b_writes := b_writes s; b_heap := b_heap s; b_nloc := b_nloc s; b_objs := b_objs s; b_buffer := b_buffer s; b_size := b_size s; b_cap := x; b_stack := b_stack s; b_ctx := b_ctx s; b_bcs := b_bcs s; b_forced := b_forced s |}.
+  Definition upd_stack s x := {| b_files := b_files s; b_clock := b_clock s; b_writes := b_writes s; b_heap := b_heap s; b_nloc := b_nloc s; b_objs := b_objs s; b_buffer := b_buffer s; b_size := b_size s; b_cap := b_cap s; b_stack := x; b_ctx := b_ctx s; b_bcs := b_bcs s; b_forced := b_forced s |}.
+  Definition upd_ctx s x := {| b_files := b_files s; b_clock := b_clock s; b_writes := b_writes s; b_heap := b_heap s; b_nloc := b_nloc s; b_objs := b_objs s; b_buffer := b_buffer s; b_size := b_size s; b_cap := b_cap s; b_stack := b_stack s; b_ctx := x; b_bcs := b_bcs s; b_forced := b_forced s |}.
+  Definition upd_bcs s x := {| b_files := b_files s; b_clock := b_clock s; b_writes := b_writes s; b_heap := b_heap s; b_nloc := b_nloc s; b_objs := b_objs s; b_buffer := b_buffer s; b_size := b_size s; b_cap := b_cap s; b_stack := b_stack s; b_ctx := b_ctx s; b_bcs := x; b_forced := b_forced s |}.
 
   Definition read_disk (s : bstate) (f : nat) : option val :=
     match nlookup f (b_files s) with Some (v, _) => Some v | None => None end.
@@ -164,13 +165,13 @@ Section WithParams.
   Definition write_disk_raw (s : bstate) (f : nat) (v : val) : bstate :=
     {| b_files := nset f (v, b_clock s) (b_files s); b_clock := S (b_clock s); b_writes := b_writes s;
        b_heap := b_heap s; b_nloc := b_nloc s; b_objs := b_objs s; b_buffer := b_buffer s;
-       b_size := b_size s; b_cap := b_cap s; b_stack := b_stack s; b_ctx := b_ctx s; b_bcs := b_bcs s |}.
+       b_size := b_size s; b_cap := b_cap s; b_stack := b_stack s; b_ctx := b_ctx s; b_bcs := b_bcs s; b_forced := b_forced s |}.
   (* a write by the library *)
   Definition write_disk (s : bstate) (f : nat) (v : val) : bstate :=
     let s1 := write_disk_raw s f v in
     {| b_files := b_files s1; b_clock := b_clock s1; b_writes := f :: b_writes s;
        b_heap := b_heap s1; b_nloc := b_nloc s1; b_objs := b_objs s1; b_buffer := b_buffer s1;
-       b_size := b_size s1; b_cap := b_cap s1; b_stack := b_stack s1; b_ctx := b_ctx s1; b_bcs := b_bcs s1 |}.
+       b_size := b_size s1; b_cap := b_cap s1; b_stack := b_stack s1; b_ctx := b_ctx s1; b_bcs := b_bcs s1; b_forced := b_forced s1 |}.
 
   Definition get_obj (s : bstate) (oid : nat) : bobj :=
     match nlookup oid (b_objs s) with Some o => o
@@ -262,7 +263,7 @@ Section WithParams.
           let s1 := {| b_files := b_files s; b_clock := b_clock s; b_writes := b_writes s;
                        b_heap := nset loc (data_of s oid) (b_heap s); b_nloc := S loc; b_objs := b_objs s;
                        b_buffer := b_buffer s; b_size := b_size s; b_cap := b_cap s; b_stack := b_stack s;
-                       b_ctx := b_ctx s; b_bcs := b_bcs s |} in
+                       b_ctx := b_ctx s; b_bcs := b_bcs s; b_forced := b_forced s |} in
           (set_loc s1 oid loc, None)
       end.
 
@@ -288,8 +289,13 @@ Section WithParams.
         match issues with [] => (s2, None) | _ => (s2, Some (XBuf issues)) end
     end.
 
+  Definition note_forced (s : bstate) : bstate :=
+    {| b_files := b_files s; b_clock := b_clock s; b_writes := b_writes s; b_heap := b_heap s; b_nloc := b_nloc s;
+       b_objs := b_objs s; b_buffer := b_buffer s; b_size := b_size s; b_cap := b_cap s; b_stack := b_stack s;
+       b_ctx := b_ctx s; b_bcs := b_bcs s; b_forced := S (b_forced s) |}.
+
   Definition check_capacity (s : bstate) : bstate * option exn :=
-    if b_cap s <? b_size s then flush_buffer s true else (s, None).
+    if b_cap s <? b_size s then flush_buffer (note_forced s) true else (s, None).
 
   (* _load of a root *)
   Definition load (s : bstate) (oid : nat) : bstate * option exn :=
@@ -345,7 +351,7 @@ Section WithParams.
 
   Definition set_capacity (s : bstate) (n : Z) : bstate * option exn :=
     let s1 := upd_cap s n in
-    if n <? b_size s1 then flush_buffer s1 true else (s1, None).
+    if n <? b_size s1 then flush_buffer (note_forced s1) true else (s1, None).
 
   Inductive bop :=
     | BNew (oid f : nat) (k : kind)
@@ -377,7 +383,7 @@ Section WithParams.
             b_heap := nset loc (empty_of k) (b_heap s); b_nloc := S loc;
             b_objs := nset oid {| bo_file := f; bo_loc := loc; bo_buf := 0; bo_kind := k |} (b_objs s);
             b_buffer := b_buffer s; b_size := b_size s; b_cap := b_cap s; b_stack := b_stack s;
-            b_ctx := b_ctx s; b_bcs := b_bcs s |}, BOk vnone)
+            b_ctx := b_ctx s; b_bcs := b_bcs s; b_forced := b_forced s |}, BOk vnone)
     | BExt f v => (write_disk_raw s f v, BOk vnone)
     | BOp oid p o =>
         let at_root := match p with [] => true | _ => false end in
